@@ -4,7 +4,7 @@ from checks import scen
 
 E2FN = ['h_lock', 'h_rlock', 'h_trylock', 'h_rtrylock', 'h_unlock', 'h_runlock', 'h_unlock_nowake', 'h_mu_wait', 'h_cv_wait', 'h_cv_signal']
 QUICK = ['e2_%s_U2_R1' % f for f in E2FN if f not in ('h_mu_wait', 'h_cv_wait')] + ['mu_w_r_R3', 'cv_plain_siginside_R3']
-THOROUGH = ['e2_h_mu_wait_w_U2_R1', 'e2_h_mu_wait_r_U2_R1', 'e2_h_cv_wait_w_U2_R1', 'e2_h_cv_wait_r_U2_R1'] + ['e2_%s_U3_R1' % f for f in E2FN if f not in ('h_mu_wait', 'h_cv_wait')] + \
+THOROUGH = ['e2_h_mu_wait_U2_R1', 'e2_h_cv_wait_U2_R1'] + ['e2_%s_U3_R1' % f for f in E2FN if f not in ('h_mu_wait', 'h_cv_wait')] + \
     ['mu_w_w_R4', 'mu_r_r_w_R3', 'cv_timed_siginside_R3', 'cv_reader_siginside_R3', 'cv_plain_sigreader_reader_R3', 'mw_ra_seta_R3', 'mw_btimed_setb_R3']
 
 
